@@ -205,10 +205,10 @@ def _analyzer_literals(rel, cls, tag):
     if len(loops) != 1:
         raise Unsupported(f"{tag}: rolling loop")
     loop = loops[0]
-    m = re.fullmatch(r"range\(len\(lines_with_numbers\) - window_size \+ (\d+)\)", ast.unparse(loop.iter))
+    m = re.fullmatch(r"range\(len\(lines_with_numbers\) - window_size(?: \+ (\d+))?\)", ast.unparse(loop.iter))
     if not m:
         raise Unsupported(f"{tag}: loop range {ast.unparse(loop.iter)}")
-    off = int(m.group(1))
+    off = int(m.group(1) or 0)
     lsrc = [ast.unparse(s) for s in loop.body]
     want = ["window = lines_with_numbers[i:i + window_size]", "code_lines = [code for _, code in window]"]
     if lsrc[:2] != want:
